@@ -207,3 +207,81 @@ def obligation(o, tier, seed):
 
 def scenario(v):
     return "dot_preprocess\n"
+
+
+# ----------------------------------------------------------------------------------------------
+# Cosine::built_distance against its documented definition (C11)
+CLAMP = z3.Function("f32_clamp", F32, F32, F32, F32)
+EPS32 = z3.FPVal(2.0 ** -23, F32)
+
+
+def run_cosine(ctx, deadline):
+    """`Cosine::built_distance` from MIR with the stored norms and the dot product symbolic and the
+    f32 operations uninterpreted: on every path the result is the term
+    (1 - clamp(pq / (pn*qn), -1, 1)) / 2 when pn*qn > f32::EPSILON and 0.0 otherwise."""
+    res = {"paths": 0, "violations": [], "unknown": [], "shapes": []}
+    pq, pn, qn = z3.FP("dot_product_pq", F32), z3.FP("norm_p", F32), z3.FP("norm_q", F32)
+    ms = []
+
+    def reg(pat):
+        def deco(f):
+            ms.append((re.compile(pat), f))
+            return f
+        return deco
+
+    @reg(r"^(spaces::simple::)?dot_product$")
+    def _(eng, st, callee, a, ty):
+        return one(pq)
+
+    @reg(r"^core::f32::<impl f32>::clamp$")
+    def _(eng, st, callee, a, ty):
+        return one(CLAMP(a[0], a[1], a[2]))
+
+    @reg(r"^<Cow<'_, UnalignedVector<f32>> as Deref>::deref$")
+    def _(eng, st, callee, a, ty):
+        return one(Ref(Cell(Opaque("vector"))))
+
+    eng = DotEngine(ctx.fns, ctx.structs, ctx.enums, ms + list(M.REGISTRY), INLINE, max_depth=3, max_steps=2000)
+    fn = find_fn(ctx.fns, r"^cosine::.*::built_distance$")
+
+    def leaf(n):
+        return Agg("Leaf", None, {0: Agg("NodeHeaderCosine", None, {0: n}), 1: Agg("Cow", BV(0, 64), {0: Opaque("vector")})})
+    finals = eng.run(fn, [Ref(Cell(leaf(pn))), Ref(Cell(leaf(qn)))], env={}, pc=[], deadline=deadline)
+    prod = FMUL(pn, qn)
+    one32, two32, zero32 = z3.FPVal(1.0, F32), z3.FPVal(2.0, F32), z3.FPVal(0.0, F32)
+    spec = z3.If(z3.fpGT(prod, EPS32), FDIV(FSUB(one32, CLAMP(FDIV(pq, prod), z3.FPVal(-1.0, F32), one32)), two32), zero32)
+    label = "Cosine::built_distance"
+    for f in finals:
+        res["paths"] += 1
+        if f.status in ("unknown", "unwind"):
+            res["unknown"].append(f"{label}: {f.status}: {f.info}")
+            continue
+        if f.status == "panic":
+            if eng.check(f.pc)[0]:
+                res["violations"].append({"shape": label, "clause": "panics: " + f.info, "pre": None, "values": {}})
+            continue
+        # multiplication commutes (trusted axiom, as in the SIMD obligation)
+        comm = [FMUL(pn, qn) == FMUL(qn, pn)]
+        ok, m = eng.check(list(f.pc) + comm, z3.Not(fp_same(f.value, spec)))
+        if ok:
+            res["violations"].append({
+                "shape": label, "pre": None,
+                "clause": "the value is not (1 - clamp(pq / (pn*qn), -1, 1)) / 2 guarded by pn*qn > f32::EPSILON "
+                          "(f32 operations uninterpreted)",
+                "values": {"norm_p": str(m.eval(pn, model_completion=True)), "norm_q": str(m.eval(qn, model_completion=True))}})
+    res["shapes"].append({"shape": label, "paths": len(finals), "ok_paths": len(finals)})
+    res["queries"], res["solver_s"] = eng.queries, round(eng.solver_s, 2)
+    res["encoded"] = sorted(E.short(x) for x in eng.encoded)
+    return res
+
+
+def cosine_obligation(o, tier, seed):
+    import e2
+    import native
+    from driver import Outcome
+    try:
+        ctx = e2.context(True)
+    except RuntimeError as e:
+        return [Outcome(o["id"], "mirsym", "inconclusive", str(e))]
+    r = run_cosine(ctx, time.time() + 300)
+    return e2_tree.outcomes_from(o, r, "cosine_def", native, e2, Outcome)
